@@ -44,7 +44,7 @@ def gen_bundle(rng, seg, big_ok=True):
     return bytes(rng.getrandbits(8) for _ in range(n))
 
 
-def run_scenario(rng, flavour, tier, cfg_a=None, cfg_b=None, timers=False):
+def run_scenario(rng, flavour, tier, cfg_a=None, cfg_b=None, timers=False, nqueries=None):
     ''' flavour: 'transfer' | 'terminate' | 'abort'. Returns (sim, sent, meta). '''
     cfg_a = cfg_a or gen_cfg(rng, timers)
     cfg_b = cfg_b or gen_cfg(rng, timers)
@@ -59,7 +59,7 @@ def run_scenario(rng, flavour, tier, cfg_a=None, cfg_b=None, timers=False):
         who = rng.choice(['a', 'b'])
         seg = eff_seg(cfg_a, cfg_b) if who == 'a' else eff_seg(cfg_b, cfg_a)
         actions.append(('send', who, gen_bundle(rng, seg)))
-    for _ in range(rng.choice([0, 1, 2, 4])):
+    for _ in range(rng.choice([0, 1, 2, 4]) if nqueries is None else nqueries):
         actions.append(('query', rng.choice(['a', 'b']), rng.choice(['state', 'idle', 'txq', 'rxq'])))
     for _ in range(rng.choice([0, 1, 2])):
         actions.append(('pop', rng.choice(['a', 'b']), None))
